@@ -136,7 +136,7 @@ def gen_task(rng, tree, scene, k):
     outcome = rng.choice(['DONE', 'DONE', 'DONE', 'FAILED', 'CANCELED'])
     descr = {'executable': '/bin/true', 'input_staging': ins, 'output_staging': outs,
              'stage_on_error': rng.random() < 0.4}
-    return {'uid': uid, 'descr': descr, 'outcome': outcome, 'produce': produce, 'info': info, 'tsbox': tsbox}
+    return {'uid': uid, 'descr': descr, 'outcome': outcome, 'produce': produce, 'info': info, 'tsbox': tsbox, 'pilot': rng.choice([0, 0, 1])}
 
 
 def read_tree(tree, ids):
@@ -221,7 +221,7 @@ def run(ctx):
                             exp_impl.append({'source': e['source'], 'target': e['target'], 'action': e['action']})
                         except ValueError: exp_impl.append({'err': 'ValueError'})
                         except Exception:  exp_impl.append({'err': 'ValueError'})
-                tasks.append(tree.task_dict(rp, g['uid'], g['descr']))
+                tasks.append(tree.task_dict(rp, g['uid'], g['descr'], pid='pilot.%04d' % g.get('pilot', 0)))
             before = read_tree(tree, ids)
             # URL completion of every source and target in every context it is completed in
             for t in tasks:
@@ -255,7 +255,7 @@ def run(ctx):
                 dist['stage_on_error_failed'] += g['outcome'] != 'DONE' and g['descr']['stage_on_error']
             ctx.case({'run': run_i, 'tasks': [g['descr'] for g in gts]}, nontrivial=any(g['info']['in'] or g['info']['out'] for g in gts))
             for sig, what in monitor(tree, gts, final, rec, before, after, ids):
-                ctx.fail(sig, what, {'tasks': [{k: g[k] for k in ('uid', 'descr', 'outcome', 'produce', 'info', 'tsbox')} for g in gts],
+                ctx.fail(sig, what, {'tasks': [{k: g.get(k, 0) for k in ('uid', 'descr', 'outcome', 'produce', 'info', 'tsbox', 'pilot')} for g in gts],
                                      'files': {p[len(tree.root):]: i for p, i in scene.files.items()}, 'root': tree.root})
         finally:
             shutil.rmtree(root, ignore_errors=True)
@@ -400,7 +400,7 @@ def replay(ctx, data):
             os.makedirs(os.path.dirname(p), exist_ok=True)
             with open(p, 'w') as f: f.write('c%d' % n)
         ids = {'c%d' % n: n for n in range(1, 10000)}
-        tasks = [tree.task_dict(rp, g['uid'], g['descr']) for g in gts]
+        tasks = [tree.task_dict(rp, g['uid'], g['descr'], pid='pilot.%04d' % g.get('pilot', 0)) for g in gts]
         before = read_tree(tree, ids)
         final, rec = stagelib.run_pipeline(rp, tree, tasks, {g['uid']: g['outcome'] for g in gts}, {g['uid']: {r: 'c%d' % i for r, i in g['produce'].items()} for g in gts})
         after = read_tree(tree, ids)
